@@ -589,37 +589,41 @@ def check_live(run, res):
 
 def check_defer_holdback(run, res):
   """C15 on small capacities: whatever overflow displaces, an event that is deferred and not
-  yet recalled is never dispatched, and recall returns the oldest deferred event still held"""
-  held = set()
+  yet recalled is never dispatched, and recall returns the oldest deferred event still held.
+  Copies are counted: the same event may legitimately sit in the queue (posted or recalled)
+  and in the deferred queue (deferred again by a handler) at the same time."""
+  pending_ok = {}     # uid -> copies legitimately in the event queue (posted or recalled)
   prev_deferred = []
   for i, ob in enumerate(run.steps):
     k = ob.op[0]
     if ob.exc is not None:
       res.violate('op-raised', {'op': k, 'exc': ob.exc}, 'op#%d %s raised %s\n%s' % (i, ob.op, ob.exc, ob.tb))
       return
-    # events deferred by handlers during this op: the fx records carry the uid of the deferring step
+    deferred_now = list(prev_deferred)
+    if k in ('post_fifo', 'post_lifo', 'ev'):
+      for u in ob.posted:
+        pending_ok[u] = pending_ok.get(u, 0) + 1
     cur = None
     for r in ob.recs:
       if r[0] == 'dispatch':
         cur = r[3]
-        if cur in held:
+        if pending_ok.get(cur, 0) > 0:
+          pending_ok[cur] -= 1
+        elif cur in deferred_now:
           res.violate('deferred-dispatched-before-recall', {},
-                      'op#%d %s dispatched %s which is deferred and was never recalled (deferred queue before the op: %s)' % (i, ob.op, cur, prev_deferred))
+                      'op#%d %s dispatched %s although no posted or recalled copy of it was pending and it sits in the deferred queue %s' % (i, ob.op, cur, deferred_now))
           return
-      elif r[0] == 'fx' and r[1] == 'defer' and cur is not None:
-        held.add(cur)
-    if k == 'defer':
-      # the uid of an externally deferred event: the newest entry of the deferred queue
-      if ob.deferred:
-        held.add(ob.deferred[-1])
-    elif k == 'recall':
+      elif r[0] == 'fx':
+        if r[1] == 'defer' and cur is not None:
+          deferred_now.append(cur)
+        elif r[1] in ('post_fifo', 'post_lifo'):
+          pending_ok[r[3]] = pending_ok.get(r[3], 0) + 1
+    if k == 'recall':
       want = prev_deferred[0] if prev_deferred else None
       if ob.ret != want:
         res.violate('recall-return', {'want_none': want is None}, 'op#%d recall() returned %r, the oldest deferred event held was %r' % (i, ob.ret, want))
         return
-      held.discard(ob.ret)
+      if ob.ret is not None:
+        pending_ok[ob.ret] = pending_ok.get(ob.ret, 0) + 1
     if ob.deferred is not None:
-      # events displaced from a full deferred queue are gone for good
-      held &= set(ob.deferred) | set(x for x in held if x not in prev_deferred)
-      held = set(x for x in held if x in ob.deferred)
       prev_deferred = list(ob.deferred)
